@@ -156,6 +156,16 @@ def run_one(ch, cfg):
     if drop_target and len(doc["targets"]) > 0:
         doc["targets"] = doc["targets"][1:]
         w.fs.put(certfile, json.dumps(doc).encode())
+    if platform == "ledger" and ch.draw(8, "app-hash-zero-bytes") == 1:
+        # the UI / Signer hash (the element's tweak) with zero bytes appended or a trailing zero byte
+        # removed: as an HMAC key it is the same key, so every signature still verifies - the hash the
+        # tool would vouch for is not the device's any more
+        tw = [e for e in doc["elements"] if e.get("tweak")]
+        if tw:
+            e = tw[ch.draw(len(tw), "app-hash.which")]
+            e["tweak"] = e["tweak"] + "00" * (1 + ch.draw(3, "app-hash.zeros")) \
+                if not e["tweak"].endswith("00") or ch.draw(2, "app-hash.append") else e["tweak"][:-2]
+            w.fs.put(certfile, json.dumps(doc).encode())
     own_root = False
     if platform == "sgx" and ch.draw(6, "own-root-in-certificate") == 1:
         # the attestation file brings its own root along, under the reserved name of the root of
